@@ -501,7 +501,10 @@ pub fn run_bin(r: BinRun) -> BinOutcome {
         }
         // after a panic message the process should be gone quickly; if not, diagnose early instead of waiting out the limit
         let early = panic_seen_at.map(|t| t.elapsed() > Duration::from_millis(1500)).unwrap_or(false);
-        if start.elapsed() > r.wall_limit || early {
+        // once several runs of this process have needed the watchdog, the tree under test hangs systematically: later runs
+        // are given 4 s instead of the full limit (normal runs take milliseconds), so that a check still ends in minutes
+        let limit = if WATCHDOG_HITS.load(std::sync::atomic::Ordering::Relaxed) >= 6 { r.wall_limit.min(Duration::from_secs(4)) } else { r.wall_limit };
+        if start.elapsed() > limit || early {
             // diagnosis, not verdict
             let tp = target_pid(pid, r.strace.is_some());
             let a = thread_states(tp);
@@ -511,10 +514,13 @@ pub fn run_bin(r: BinRun) -> BinOutcome {
             let delta: u64 = a.iter().zip(b.iter()).filter(|(x, y)| x.0 == y.0).map(|(x, y)| y.2.saturating_sub(x.2)).sum();
             let progressed = delta >= 5;
             let all_sleeping = !b.is_empty() && b.iter().all(|t| t.1.starts_with('S'));
-            if early && start.elapsed() <= r.wall_limit && !(all_sleeping && !progressed) {
+            if early && start.elapsed() <= limit && !(all_sleeping && !progressed) {
                 // not (yet) a clear dead-lock: look again later instead of concluding from one sample
                 panic_seen_at = Some(Instant::now());
                 continue;
+            }
+            if !early {
+                WATCHDOG_HITS.fetch_add(1, std::sync::atomic::Ordering::Relaxed);
             }
             let diag = if all_sleeping && !progressed {
                 // 202 = futex, 271 = ppoll, 7 = poll, 232 = epoll_wait
@@ -550,6 +556,9 @@ pub fn run_bin(r: BinRun) -> BinOutcome {
         wall_ms: start.elapsed().as_millis() as u64,
     }
 }
+
+/// number of runs of this process that were ended by the wall-clock watchdog
+pub static WATCHDOG_HITS: std::sync::atomic::AtomicUsize = std::sync::atomic::AtomicUsize::new(0);
 
 /// Convenience: generate for `lang` from `root` (already materialised) into `out` (file or folder).
 pub fn cli_args(lang: LangId, cfg: &LangCfg, multi: bool, out: &Path, dirs: &[&str]) -> Vec<String> {
